@@ -534,16 +534,23 @@ def check_dup(chk, prog, summ, f, nullable):
                 # (re)construction of the result object: every field is constructor-initialised
                 return frozenset(state) | frozenset(("fresh", fld) for fld in owned)
             if l.get("k") == "ref" and l.get("rk") == "local":
-                st = set(x for x in state if not (x[0] == "freshvar" and x[1] == l["d"]))
+                st = set(x for x in state if not (x[0] in ("freshvar", "aliasfld") and x[1] == l["d"]))
                 if fresh_rhs(n["ch"][1], state) and not X.is_null_const(n["ch"][1]):
                     st.add(("freshvar", l["d"]))
+                r_ = X.strip(n["ch"][1])
+                if r_ is not None and r_.get("k") == "member" and r_.get("arrow") and X.strip(r_["ch"][0]).get("d") == self_d:
+                    st.add(("aliasfld", l["d"], r_["n"]))       # src = self->head: a NULL test of src is one of self->head
                 return frozenset(st)
         if k == "decl":
             st = set(state)
             for dcl in n.get("decls", ()):
                 st.discard(("freshvar", dcl["d"]))
+                st = set(x for x in st if not (x[0] == "aliasfld" and x[1] == dcl["d"]))
                 if dcl.get("init") is not None and fresh_rhs(dcl["init"], state) and not X.is_null_const(dcl["init"]):
                     st.add(("freshvar", dcl["d"]))
+                r_ = X.strip(dcl["init"]) if dcl.get("init") is not None else None
+                if r_ is not None and r_.get("k") == "member" and r_.get("arrow") and X.strip(r_["ch"][0]).get("d") == self_d:
+                    st.add(("aliasfld", dcl["d"], r_["n"]))
             return frozenset(st)
         return state
 
@@ -570,6 +577,9 @@ def check_dup(chk, prog, summ, f, nullable):
         for fld in owned:
             if ("null", "%s->%s" % (selfp, fld)) in st and ("null", "%s->%s" % (selfp, fld)) not in state:
                 add.add(("fresh", fld))
+        for x in st:
+            if x[0] == "aliasfld" and x[2] in owned and ("null", "d%d" % x[1]) in st and ("null", "d%d" % x[1]) not in state:
+                add.add(("fresh", x[2]))
         return frozenset(st) | add if add else st
     if owned and cfg is not None:
         seed = frozenset(("nn", "d%d" % p["d"]) for p in f.params if p.get("tp"))
